@@ -44,7 +44,7 @@ def gen(rng, tier):
     add([992] * 5 + [0])
     add([490, 495] * 5)
     add([491, 494, 1] * 3)
-    for _ in range(600 if tier == 'quick' else 8000):
+    for _ in range(600 if tier == 'quick' else 20000):
         k = rng.choice([1, 2, 3, 6, 12, 30])
         add([rng.choice([0, 1, 3, 7, 100, 300, 485, 486, 492, rng.randrange(0, 993)]) for _ in range(k)], rng.choice(['mixed', 'digits', 'header']))
     return cases
